@@ -165,7 +165,7 @@ NUM_CONTEXTS = {"plain": "%s", "string": "string(%s)", "neg": "-%s", "times10": 
                 "round": "round(-%s)", "substring": "substring('abcdef', 2, %s)", "concat": "concat('v', %s, 'w')", "sum": "%s + %s",
                 "div": "1 div %s", "pred": "//item[%s]", "strlen": "string-length(string(%s * 10))", "bool": "boolean(%s)"}
 NUM_PATTERNS = ["#", "0.00", "#,##0.###", "0" * 40, "#.#" + "#" * 60, "000,000.0", "#%", "#‰"]
-NUM_FORMATS = ["1", "01", "a", "A", "i", "I", "001", "١", "あ", "1.1"]
+NUM_FORMATS = ["1", "01", "a", "A", "i", "I", "001", "1.1", "(1)", "α"]
 FINITE_BIG = ["1e89", "1e90", "1e100", "2p63m1", "2p63", "2p64", "1e19", "1e21", "1e22", "1e308", "max", "2p53p1"]
 LONG = 65536
 LONG_KINDS_XML = ["elementName", "attributeName", "piTarget", "prefix", "attributeValue", "nsUri", "entityName", "comment"]
@@ -195,10 +195,12 @@ def deep(cls, d, v):
             return "xml", ("<a>" * d + "x" + "</a>" * d).encode(), False
         if v == "mixed":
             return "xml", ("<r>" + "<a>t" * d + "</a>" * d + "</r>").encode(), False
-        return "xml", ("<r>" + '<a b="1" xmlns:p%d="urn:%d">' * 0 + '<a b="1">' * d + "</a>" * d + "</r>").encode(), False
+        return "xml", ("<r>" + '<a b="1">' * d + "</a>" * d + "</r>").encode(), False
     if cls == "deepTemplateBody":
+        if v == "variable":       # a variable may not shadow another one of the same template: distinct names
+            return "xsl", sheet("".join('<xsl:variable name="v%d">' % k for k in range(d)) + "x" + "</xsl:variable>" * d), False
         o, c = {"lre": ("<a>", "</a>"), "if": ('<xsl:if test="1">', "</xsl:if>"), "forEach": ('<xsl:for-each select=".">', "</xsl:for-each>"),
-                "element": ('<xsl:element name="a">', "</xsl:element>"), "variable": ('<xsl:variable name="v">', "</xsl:variable>")}[v]
+                "element": ('<xsl:element name="a">', "</xsl:element>")}[v]
         return "xsl", sheet(o * d + "x" + c * d), False
     if cls == "deepParens":
         if v == "parens":
@@ -216,7 +218,7 @@ def deep(cls, d, v):
         if v == "child":
             return "xpath", ("/doc" + "/item" * d).encode(), True
         if v == "descendant":
-            return "xpath", ("/" + "/item" * 0 + "/*" * 0 + "/doc" + "//." * d).encode(), True
+            return "xpath", ("/doc" + "/descendant::item" * d).encode(), True
         if v == "parent":
             return "xpath", ("//sub" + "/.." * d).encode(), True
         if v == "union":
@@ -225,7 +227,7 @@ def deep(cls, d, v):
             return "xpath", ("1" + " or 1" * d).encode(), False
         if v == "plus":
             return "xpath", ("1" + "+1" * d).encode(), False
-        return "xpath", ("//item" + "[@n]" * 0 + "[@n[.]" * 0 + "/self::item[@n]" * d).encode(), True
+        return "xpath", ("//item" + "/self::item[@n]" * d).encode(), True
     raise KeyError(cls)
 
 
